@@ -356,13 +356,22 @@ def run_case(case):
                             break
             # two rows must never hold the SAME mutable object (an in-place edit on one row would change the other)
             seen_ids = {}
-            for r_ in grows:
+
+            def containers(v_):
+                # the value and every list / dict nested in it
+                if isinstance(v_, (list, dict)):
+                    yield v_
+                    for x_ in (v_.values() if isinstance(v_, dict) else v_):
+                        yield from containers(x_)
+            for ri_, r_ in enumerate(grows):
                 for k_, v_ in r_.items():
-                    if isinstance(v_, (list, dict)):
-                        if id(v_) in seen_ids and seen_ids[id(v_)] is not r_:
-                            diffs.append('%s: rows share one %s object in field %r' % (rn, type(v_).__name__, k_))
-                            break
-                        seen_ids[id(v_)] = r_
+                    hit_ = next((c_ for c_ in containers(v_) if seen_ids.get(id(c_), ri_) != ri_), None)
+                    if hit_ is not None:
+                        diffs.append('%s: rows share one %s object in field %r%s' % (
+                            rn, type(hit_).__name__, k_, '' if hit_ is v_ else ' (nested inside the cell value)'))
+                        break
+                    for c_ in containers(v_):
+                        seen_ids[id(c_)] = ri_
                 else:
                     continue
                 break
